@@ -326,7 +326,7 @@ class CheckC01(Check):
                   "minimised explicit histories")
     oracles = (C01,)
     judged = {"C01"}
-    sizes = {"quick": 12000, "thorough": 400000}
+    sizes = {"quick": 9000, "thorough": 400000}
     chunk = 40
     rule = ("seeded swarm over algorithm x partition x box x parameters x reward program x RNG policy x T<=n, within the provisos "
             "of the statement (depth caps that hold the budget); a run is non-trivial if it completed >= 10 rounds and made >= 1 "
@@ -477,7 +477,7 @@ def vroom_long(r, seed):
     20-50 s, so there are two per quick batch and a few dozen per thorough batch)."""
     n = r.choice([1030, 1040, 1100])
     d = r.choice([1, 1, 2])
-    return {"algo": "VROOM", "params": {"n": n, "h_max": r.choice([8, 10, 12, 100]), "b": gen.loguniform(r, 0.1, 2), "f_max": gen.loguniform(r, 0.5, 5)},
+    return {"algo": "VROOM", "params": {"n": n, "h_max": r.choice([8, 10, 12]), "b": gen.loguniform(r, 0.1, 2), "f_max": gen.loguniform(r, 0.5, 5)},
             "partition": dict(r.choice(gen.PARTS_BINARY_CHILD)), "domain": [gen.gen_side(r) for _ in range(d)], "budget": n,
             "rounds": r.choice([1027, 1030]), "rewards": gen.gen_rewards(r, ["unit", "gauss", "fewlevels", "int", "obj"], seed),
             "rng": gen.gen_rng(r, seed, 0.3), "schedule": [], "meta": {"c01_proviso": True, "known": None, "long": True}}
@@ -617,7 +617,10 @@ class CheckC05(Check):
             sc["rounds"] = T
             sc["budget"] = T
             if algo == "T_HOO":
-                sc["params"]["rounds"] = T
+                # T-HOO grows one expansion per round unless truncated: a shallow truncation depth keeps the tree (and the
+                # per-round re-derivation) small, while the root and its children collect thousands of rewards
+                sc["params"] = {"rounds": T, "nu": gen.loguniform(r, 0.05, 0.3), "rho": r.uniform(0.2, 0.6)}
+                sc["partition"] = dict(r.choice(gen.PARTS_BINARY_CHILD))
             elif T > 2000:
                 # thresholds so large that the tree stays tiny: single cells collect more than 1024 (2048) pulls
                 sc["params"]["c"] = gen.loguniform(r, 2.0, 6.0)
@@ -626,7 +629,8 @@ class CheckC05(Check):
                 sc["partition"] = dict(r.choice(gen.PARTS_BINARY_CHILD))     # two cells share the pulls
             else:
                 # thresholds that keep the tree small enough to re-derive every round
-                sc["params"]["c"] = gen.loguniform(r, 0.08, 1.0)
+                sc["params"]["c"] = gen.loguniform(r, 0.3, 1.0)
+                sc["params"]["nu"] = gen.loguniform(r, 0.1, 2.0)
             sc["schedule"] = [s for s in sc.get("schedule") or [] if s["after"] <= T]
             sc["neighbours"] = []
         return sc
